@@ -144,6 +144,42 @@ class NPProxy:
                 out[i, ...] = v
         return out.view(SymArray)
 
+    # -- predicates NumPy only implements for numeric dtypes
+    def _elementwise(self, fn, *arrays):
+        bs = _np.broadcast_arrays(*[_np.asarray(a, dtype=object) for a in arrays])
+        out = _np.empty(bs[0].shape, dtype=bool)
+        it = _np.nditer(out, flags=["multi_index"], op_flags=["writeonly"])
+        for _ in it:
+            idx = it.multi_index
+            out[idx] = bool(fn(*[b[idx] for b in bs]))
+        return out if out.ndim else bool(out[()])
+
+    def isclose(self, a, b, rtol=1e-5, atol=1e-8, equal_nan=False):
+        if not (_has_sym(a) or _has_sym(b)):
+            return _np.isclose(a, b, rtol=rtol, atol=atol, equal_nan=equal_nan)
+        rt, at = Sym.lift(rtol), Sym.lift(atol)
+
+        def one(x, y):
+            x, y = Sym.lift(x), Sym.lift(y)
+            if x is None or y is None:      # nan / inf operand
+                return False
+            return abs(x - y) <= at + rt * abs(y)
+        return self._elementwise(one, a, b)
+
+    def allclose(self, a, b, rtol=1e-5, atol=1e-8, equal_nan=False):
+        r = self.isclose(a, b, rtol=rtol, atol=atol, equal_nan=equal_nan)
+        return bool(_np.all(r))
+
+    def isfinite(self, a, *args, **kw):
+        if not _has_sym(a):
+            return _np.isfinite(a, *args, **kw)
+        return self._elementwise(lambda v: Sym.lift(v) is not None, a)
+
+    def isnan(self, a, *args, **kw):
+        if not _has_sym(a):
+            return _np.isnan(a, *args, **kw)
+        return self._elementwise(lambda v: (not isinstance(v, Sym)) and v != v, a)
+
     def isscalar(self, v):
         return isinstance(v, Sym) or _np.isscalar(v)
 
